@@ -15,6 +15,7 @@
    obligation of C10.  Only statements here; the lemmas are in Pat/RefSrc.v. *)
 From Isobar Require Import Base.Prelude Pat.Val Pat.Syntax Pat.Step Pat.StepProofs Pat.Ref Pat.RefProofs
   Generated.TablesStep Pat.StepSrc Pat.RefSrc.
+From Isobar Require Import Pat.FuelMono Pat.RefProofs2 Pat.IterProofs Pat.ResetProofs Pat.RefProofs3 Pat.RefSrc2.
 From Coq Require Import String QArith.
 Open Scope Z_scope.
 
@@ -105,6 +106,54 @@ Section AnyEngine.
     (forall j v, at_ s j = Yield v -> intish v) ->
     SrcDen (S f) (PDiff (aafter binop LMAX f 1 a) v0) (sem_adj diff1 s).
   Proof. exact (src_diff_den binop LMAX). Qed.
+  (** the classes of Props/C10More.v whose bodies are translated: the same closed forms over the source-generated bodies *)
+  Theorem C10_src_impulse : forall f P, 1 <= P -> SrcDen (S (S f)) (PImpulse (AV (VInt P)) 0) (Inf (ref_impulse P)).
+  Proof. exact (src_impulse_den binop LMAX). Qed.
+
+  Theorem C10_src_counter : forall f c zs, Den f c (Fin (map zi zs)) ->
+    SrcDen (S (S f)) (PCounter (AP c) (VInt 0) 0) (Fin (ref_counter_from 0 0 zs)).
+  Proof. exact (src_counter_den binop LMAX). Qed.
+
+  (* the two `while` loops of PWrap.__next__ as written *)
+  Theorem C10_src_wrap : forall f c s mn mx K, mn < mx -> Den f c s ->
+    (forall j v, at_ s j = Yield v -> exists z, v = VInt z /\ Z.abs (z - mn) <= Z.of_nat K * (mx - mn)) ->
+    SrcDen (S (S (f + K))) (PWrap (AP c) (VInt mn) (VInt mx)) (sem_map (wrapv mn mx) s).
+  Proof. exact (src_wrap_den binop LMAX). Qed.
+
+  Theorem C10_src_collapse : forall f c l, Den f c (Fin l) ->
+    SrcDen (S (f + List.length l + 2)) (PCollapse (AP c)) (Fin (ref_collapse l)).
+  Proof. exact (src_collapse_den binop LMAX). Qed.
+
+  Theorem C10_src_norepeats : forall f c l, Den f c (Fin l) -> (forall v, In v l -> py_eq v (VInt MAXSIZE) = false) ->
+    SrcDen (S (f + List.length l + 2)) (PNoRepeats (AP c) (VInt MAXSIZE)) (Fin (ref_norepeats_from (VInt MAXSIZE) l)).
+  Proof. exact (src_norepeats_den binop LMAX). Qed.
+
+  Theorem C10_src_pad_to_multiple : forall f c s m mp, (1 <= m)%nat -> Den f c s ->
+    SrcDen (S (S f)) (PPadToMultiple (AP c) (VInt (Z.of_nat m)) (VInt (Z.of_nat mp)) 0 0) (sem_pad_to_multiple m mp s).
+  Proof. exact (src_padm_den binop LMAX). Qed.
+
+  Theorem C10_src_loop : forall f c s count, (1 <= count)%nat -> Den f c s ->
+    SrcDen (S (S f)) (PLoop (AP c) (VInt (Z.of_nat count)) 0 0 false []) (sem_loop count s).
+  Proof. exact (src_loop_den binop LMAX). Qed.
+
+  (* PConcatenate.__next__ as written: next() of the current input inside try, self.pos += 1 and next(self) when it ends *)
+  Theorem C10_src_concatenate : forall f c0 l0 cs ls, Den f c0 (Fin l0) -> Forall2 (fun c l => Den f c (Fin l)) cs ls ->
+    SrcDen (S (f + List.length cs + 1)) (PConcatenate (AL (map AP (c0 :: cs))) 0) (Fin (ref_concatenate (l0 :: ls))).
+  Proof. exact (src_concatenate_den binop LMAX). Qed.
+
+  (* PPingPong: the object __init__ / reset AS WRITTEN build (super().reset(); self.pattern.reset(); self.values =
+     self.pattern.all(); ...) denotes p forwards and back, __next__ as written *)
+  Theorem C10_src_pingpong : forall f c l count F, Den f c (Fin l) -> Resets binop LMAX f c -> (List.length l <= LMAX)%nat -> (f + 3 <= S F)%nat ->
+    exists p, src_PPingPong_init (reset binop LMAX F) (value binop LMAX) F (areset_strict binop LMAX)
+                (fun n a => aall binop LMAX n LMAX a) (AP c) (VInt (Z.of_nat count)) = Yield p /\
+              forall g, SrcDen (S g) p (Fin (ref_pingpong count l)).
+  Proof. exact (src_pingpong_den binop LMAX). Qed.
+
+  (* PReset.__next__ as written, over an endless p *)
+  Theorem C10_src_reset_endless : forall f c g ct st, Den f c (Inf g) -> Resets binop LMAX f c -> Den f ct st ->
+    (forall j v, at_ st j = Yield v -> v = VNone \/ exists t, v = VInt t) ->
+    SrcDen (S (S f)) (PReset (AP c) (AP ct)) (sem_reset g st).
+  Proof. exact (src_reset_den binop LMAX). Qed.
 End AnyEngine.
 Print Assumptions C10_src_den_is_den.
 Print Assumptions C10_src_step_is_step.
@@ -124,6 +173,16 @@ Print Assumptions C10_src_skipif.
 Print Assumptions C10_src_operator.
 Print Assumptions C10_src_changed.
 Print Assumptions C10_src_diff.
+Print Assumptions C10_src_impulse.
+Print Assumptions C10_src_counter.
+Print Assumptions C10_src_wrap.
+Print Assumptions C10_src_collapse.
+Print Assumptions C10_src_norepeats.
+Print Assumptions C10_src_pad_to_multiple.
+Print Assumptions C10_src_loop.
+Print Assumptions C10_src_concatenate.
+Print Assumptions C10_src_pingpong.
+Print Assumptions C10_src_reset_endless.
 
 (* non-vacuity: the generated __init__ builds an object, and the generated __next__ run on it (src_step, 5 calls) gives
    the closed form and then StopIteration *)
